@@ -474,13 +474,17 @@ contract(AES + ".__init__", params=dict(self=AEST, key_length=TInt, cipher_lengt
          ensures=["self.key_length == key_length", "self.cipher_length == cipher_length",
                   "self.message_length == message_length", "inv(self)"],
          no_runtime=True, props=["C14", "C08"])
-contract(AES + ".KeyGen", params=dict(self=AEST), returns=TBytes, ensures=["len(result) == self.key_length"], props=["C14"])
+contract(AES + ".KeyGen", params=dict(self=AEST), returns=TBytes, modifies_ghost=["rng_n"],
+         ensures=["len(result) == self.key_length", "result == draw(old(rng_n))", "rng_n == old(rng_n) + 1"], props=["C14"])
 _genkm = lambda rnd: None
-contract(AES + ".Encrypt", params=dict(self=AEST, key=TBytes, message=TBytes), returns=TBytes,
+contract(AES + ".Encrypt", params=dict(self=AEST, key=TBytes, message=TBytes), returns=TBytes, modifies_ghost=["rng_n"],
          raises={"ValueError": dict(when="(self.message_length != -1 and len(message) != self.message_length) or "
                                          "len(key) != self.key_length", iff=True)},
          ensures=["len(result) == 16 + 16 * (len(message) // 16 + 1)",
-                  "result[16:] == cbc_enc(key, result[:16], pkcs7(message, 16))"],
+                  "result[16:] == cbc_enc(key, result[:16], pkcs7(message, 16))",
+                  # fresh randomness: the IV is the value the random source hands out during THIS call, whatever
+                  # state the object is in (A1: different draws differ) -- no pool, no counter, no reuse
+                  "result[:16] == draw(old(rng_n))", "rng_n == old(rng_n) + 1"],
          lemmas=["X2_cbc_len"], hints=[("pkcs7_len", ["message", "16"])],
          gen=lambda rnd: _gen_enc(rnd),
          props=["C14", "C01", "C04", "C05"])
@@ -520,12 +524,23 @@ def _gen_dec(rnd):
 
 
 # Decrypt(k, Encrypt(k, m)) == m, as ghost client code over the two contracts (A3 is thereby proved from X1, X2)
-contract("ghost:aes_roundtrip", params=dict(ske=AEST, key=TBytes, message=TBytes), returns=TBytes,
+contract("ghost:aes_roundtrip", modifies_ghost=["rng_n"], params=dict(ske=AEST, key=TBytes, message=TBytes), returns=TBytes,
          body="def aes_roundtrip(ske, key, message):\n    return ske.Decrypt(key, ske.Encrypt(key, message))\n",
          requires=["len(key) == ske.key_length", "ske.message_length == -1 or len(message) == ske.message_length",
                    "ske.cipher_length == -1 or ske.cipher_length == 16 + 16 * (len(message) // 16 + 1)"],
          ensures=["result == message"], lemmas=["X2_cbc_inv", "X2_cbc_len"],
          hints=[("pkcs7_len", ["message", "16"]), ("X1_pad_valid", ["message", "16"])], props=["C14", "C01"])
+
+
+# two encryptions on one object differ, however far apart in the object's history (the call in between stands for
+# any use of the object: its contract does not say where the random tape stands afterwards, only that it never rewinds)
+contract("ghost:aes_fresh_iv", params=dict(ske=AEST, key=TBytes, m1=TBytes, m2=TBytes, other=TBytes), returns=TBool,
+         body="def aes_fresh_iv(ske, key, m1, m2, other):\n    c1 = ske.Encrypt(key, m1)\n    k2 = ske.KeyGen()\n"
+              "    c0 = ske.Encrypt(k2, other)\n    c2 = ske.Encrypt(key, m2)\n    return c1 != c2 and c0 != c2 and c1 != c0\n",
+         requires=["len(key) == ske.key_length", "ske.message_length == -1",
+                   ],
+         ensures=["result == True"], lemmas=["X2_cbc_len", "A1_fresh"], modifies_ghost=["rng_n"],
+         hints=[("pkcs7_len", ["m1", "16"]), ("pkcs7_len", ["m2", "16"]), ("pkcs7_len", ["other", "16"])], props=["C14", "C04"])
 
 
 # ---- bounded stand-ins (run-time, labelled bounded in evidence; never counted as proved) ----------------------
